@@ -9,8 +9,9 @@
    nearest ancestor's, and a refused request changes nothing.
    PROVED: memory and threads (C36_fit_invariant_mem_threads_partial, C36_every_group_fits_mem_threads), nesting of cpu sets
    (C36_cpuset_nesting), refusal (C36_refused_unchanged).
-   REFUTED on the faithful model and on the real code: the CPU part (C36_cpu_fit_refuted, C36_cpu_fit_set_only_ancestor_refuted;
-   two independent defects, KNOWN_FINDINGS keys cpuset-change-over-count0-group and cpu-check-stops-at-cpuset-only-ancestor).
+   REFUTED on the faithful model and on the real code: the CPU part (C36_cpu_fit_refuted, C36_cpu_fit_numcpu_cap_refuted;
+   KNOWN_FINDINGS keys cpuset-change-over-count0-group and cpu-percentage-only-sized-beyond-numcpu; a third defect,
+   cpu-check-stops-at-cpuset-only-ancestor, was repaired in /repo commit 731c638 and is now a regression case).
    NOT PROVED here: a guarded CPU theorem (what the CPU fit does guarantee outside the two defect classes); the CPU fit is
    monitored on the observed trees of the implementation in every run (Quota.inv_cpu), which is testing, not proof. *)
 From Coq Require Import List ZArith NArith Bool.
@@ -57,12 +58,20 @@ Theorem C36_cpu_fit_refuted : exists (ncpu : Z) (qs : list req),
 Proof. exact cpu_fit_refuted. Qed.
 Print Assumptions C36_cpu_fit_refuted.
 
-(* Witness 2, creations only: root 2x25% (50), child with only a cpu set {0,2,4,5}, grandchild 4x100% accepted because
-   the validator's parent loop stops at the child (which has a cpu set but no cpu quota) and never reaches the root *)
-Theorem C36_cpu_fit_set_only_ancestor_refuted : exists (ncpu : Z) (qs : list req),
-  forallb is_creation qs = true /\ all_accepted ncpu qs = true /\ inv_cpu ncpu (run ncpu [] qs) = false.
-Proof. exact cpu_fit_set_only_ancestor_refuted. Qed.
-Print Assumptions C36_cpu_fit_set_only_ancestor_refuted.
+(* Witness 3: no effective cpu set changes, yet the fit breaks. Group 12x100% over a 12-entry cpu set on an 8-cpu machine
+   with sub-groups 4x100, 4x100, 2x100 (1000); UpdateQuotaLimits(cpu 0x100%, same set) is sized as 12x100 = 1200 by the
+   validator and accepted, but GetLocalCPUQuota caps the count at NumCPU: the group now reserves 800 < 1000 *)
+Theorem C36_cpu_fit_numcpu_cap_refuted : exists (ncpu : Z) (qs : list req),
+  all_accepted ncpu qs = true /\ inv_cpu ncpu (run ncpu [] qs) = false.
+Proof. exact cpu_fit_numcpu_cap_refuted. Qed.
+Print Assumptions C36_cpu_fit_numcpu_cap_refuted.
+
+(* the former witness 2 (root 2x25%, child with only a cpu set {0,2,4,5}, grandchild 4x100%) is refused since the repair of
+   validateCPUResourceFit in /repo commit 731c638, and the fit holds after that history *)
+Example C36_ex_set_only_ancestor_now_refused :
+  step 8 (run 8 [] (firstn 2 cpu_witness_2)) (RSub [0%nat; 0%nat] 3 (mkRes None (Some (4, 100)) None None)) = None /\
+  inv_cpu 8 (run 8 [] cpu_witness_2) = true.
+Proof. exact set_only_ancestor_now_refused. Qed.
 
 (* non-vacuity: histories with accepted nested creations and updates exist, requests are refused for lack of room, and
    the invariant is not trivially true of arbitrary forests *)
